@@ -45,6 +45,9 @@ Oracle calibration
   * The module-global registries a class definition can write to (frappy.params.PREDEFINED_ACCESSIBLES, rwhandler.Handler.
     method_names, generalConfig.defaults) are compared before / after every def step: a change is counted as a latent hazard
     (outcome), a violation only when an observable difference of some class / instance follows.
+  * The datatype object a program passes to the declarations of several classes ('shared' family) is an entity of its own: it
+    must stay what the programmer wrote.  That several classes remember it in ownProperties is by design (latent, not reported);
+    ownProperties differences of a class are not reported on top of a deviation of the shared object itself.
   * A class and its subclass legitimately share the *same* Accessible object for an accessible the subclass does not
     override (plain Python inheritance of the class attribute).  Objects reached through the very same Accessible
     object from two classes are therefore not reported by the identity walk; sharing between an instance and
@@ -930,20 +933,31 @@ class World:
             if propvals is not None:
                 walk(propvals, 'module.propertyValues', 0, mine)
             shared = {}
+            skipped = set()      # latent (by design) shared objects: what hangs below them is shared as well
             for oid, (path, via, obj, parent) in mine.items():
                 other = seen.get(oid)
                 if other is None:
                     seen[oid] = (label, okind, path, via, obj)
                     continue
+                if parent in skipped:
+                    skipped.add(oid)
+                    continue
                 olabel, ookind, opath, ovia, _ = other
                 if okind == 'class' and ookind == 'class' and via == ovia and via:
                     continue      # the same inherited Accessible object (by design)
+                if okind == 'class' and ookind == 'class' and any(obj is c for c in self.constants.values()):
+                    # the datatype object the programmer passed to the declarations of both classes: each class remembers it
+                    # in ownProperties (and works on a copy); a hazard only if somebody changes the object - that is observed
+                    self.latent += 1
+                    skipped.add(oid)
+                    continue
                 if okind == 'class' and ookind == 'class' and vianame.get((label, via)) == vianame.get((olabel, ovia)) \
                         and self.related(label[6:], olabel[6:]):
                     # a subclass's accessible refers to a datatype object of the SAME accessible of its base class (Command.merge
                     # hands on argument / result without copying): a latent hazard, no violation as long as nothing changes
                     # the object - a change shows in the differential observation of the base class
                     self.latent += 1
+                    skipped.add(oid)
                     continue
                 shared[oid] = (olabel, ookind, opath, path, obj, parent)
             for oid, (olabel, ookind, opath, path, obj, parent) in shared.items():
@@ -1310,6 +1324,11 @@ def evaluate(family, steps, part, ref, parent=None):
                     continue
             a, b = json.loads(obs[ent]), json.loads(expected)
             fd = first_diff(a, b)
+            if ent[0] == 'class' and component(fd) == 'own' and any(
+                    summary['obs'][e][0] != summary['obs'][e][1] for e in summary['obs'] if e[0] == 'const'):
+                # the class remembers the programmer's datatype object in ownProperties: explained by the changed object itself
+                part.outcomes['diff:own-properties-show-the-changed-shared-object'] += 1
+                continue
             rel = relation(world, steps, ent)
             sig = f'C09:{family}:diff:{rel}:{component(fd)}:after-{lastkind}'
             part.outcomes['diff:' + rel] += 1
